@@ -32,6 +32,10 @@ def run(ctx, rep):
     setters(ctx, rep)
     field_writers(ctx, rep)
     connect(ctx, rep)
+    # "sends that ISI as the first and only frame": the handshake hands the ISI to Framed::write, which must deliver the whole
+    # encoded frame (C06's R6.1 / R6.2)
+    from props import c06
+    c06.write_rules(ctx, rep)
     inventory(ctx, rep)
 
 
